@@ -411,11 +411,19 @@ def _constant_templates(repo: Repo, rep: Report) -> None:
     # the two `__init__.py` line lists (found by what they are - a list literal of constant lines with relative imports and `__all__` - in
     # emit or a helper of the emitter it was moved to; the auth one is the one importing `.base`)
     init_lists = []
+
+    def _is_init_lines(n: ast.AST) -> bool:
+        return isinstance(n, (ast.Assign, ast.AnnAssign)) and isinstance(getattr(n, "value", None), (ast.List, ast.Tuple)) and bool(n.value.elts) and all(
+            const_str(e) is not None for e in n.value.elts[:3]) and any((const_str(e) or "").startswith("from .") for e in n.value.elts) and any(
+            "__all__" in (const_str(e) or "") for e in n.value.elts)
+
     for f_ in emit.module.functions.values():
         for n in own_nodes(f_.node):
-            if isinstance(n, (ast.Assign, ast.AnnAssign)) and isinstance(getattr(n, "value", None), ast.List) and n.value.elts and all(const_str(e) is not None for e in n.value.elts[:3]) \
-                    and any((const_str(e) or "").startswith("from .") for e in n.value.elts) and any("__all__" in (const_str(e) or "") for e in n.value.elts):
+            if _is_init_lines(n):
                 init_lists.append((f_, n))
+    for n in emit.module.tree.body:  # ... or module-level constants of the emitter (`AUTH_INIT_LINES = (...)`)
+        if _is_init_lines(n):
+            init_lists.append((emit, n))
     for var, label, base in (("core_init_content", "core __init__", ""), ("auth_init_content", "auth __init__", "auth.")):
         is_auth = label.startswith("auth")
         lists = [n for f_, n in init_lists if any((const_str(e) or "").startswith("from .base import") for e in n.value.elts) == is_auth]
@@ -1205,8 +1213,9 @@ def rule_fields_do_not_shadow_imports(repo: Repo, rep, rule: str = "R1.21") -> N
         if isinstance(c, ast.Compare) and len(c.ops) == 1 and isinstance(c.ops[0], ast.In) and isinstance(c.left, ast.Name) and c.left.id in names:
             rhs = c.comparators[0]
             if isinstance(rhs, ast.Name):  # a module- / class-level constant
+                cname = rhs.id
                 for st in ast.walk(gen.module.tree):
-                    if isinstance(st, ast.Assign) and any(isinstance(t, ast.Name) and t.id == rhs.id for t in st.targets):
+                    if isinstance(st, ast.Assign) and any(isinstance(t, ast.Name) and t.id == cname for t in st.targets):
                         rhs = st.value
             if isinstance(rhs, (ast.Tuple, ast.Set, ast.List)):
                 excluded |= {const_str(e) for e in rhs.elts if const_str(e)}
